@@ -902,6 +902,11 @@ func (d *Decoder) typeInfo() (highThreeBits, lowFiveBits byte, additional []byte
 	case eightBytesAdditional:
 		additional = make([]byte, 8)
 	default:
+		// 28-30 are reserved and 31 marks indefinite lengths (or a "break"),
+		// neither of which is supported
+		if lowFiveBits > eightBytesAdditional {
+			return 0, 0, nil, ErrUnsupportedType{typeName: "reserved additional information or indefinite length"}
+		}
 		return highThreeBits, lowFiveBits, nil, nil
 	}
 
